@@ -274,8 +274,7 @@ def unit_wrapper2(mode, nspin, level, add, rhocut=False):
                         ctx.equal("dfdX0T[%d,%d,%d]#%d" % (s, i, g, pi_), H, dX[s, i, g], tm.diff(tm.lift(f[g]), X0[s, i, g]), fq,
                                   replay=replay_wrapper2(mode, nspin, rhocut))
                 for k, (r0, vo, vn) in enumerate(zip(rt0, vold, vt)):
-                    if rhocut:
-                        break   # the mask is piecewise constant in rho (A7): the rho-derivative is checked without cutoff
+                    # with a cutoff the mask is piecewise constant in rho: the clause is checked region by region (A7 excludes only the boundary)
                     for c in range(r0.shape[0]):
                         ctx.equal("vrho_tuple[%d][%d,%d] += df/drho_tuple#%d" % (k, c, g, pi_), H, vn[c, g], tm.lift(vo[c, g]) + tm.diff(tm.lift(f[g]), r0[c, g]), fq)
             ctx.canary("canary#%d" % pi_, H, vt[0][0, 0], tm.lift(vold[0][0, 0]))
